@@ -295,7 +295,16 @@ fn c07_errors(rep: &mut Report, r: &mut Rng, shard: u64, nshards: u64) {
                         }
                     }
                     // ... or re-targeted it (separate response: own type and message id), or touched other parts
-                    let premut = r.below(8);
+                    let premut = r.below(9);
+                    if premut == 8 {
+                        // the final block of an upload: request and reply carry the same Block1 value (the
+                        // acknowledgement a block handler put on the reply) - any error may follow, 4.08 included
+                        let b1 = vec![0x10 | (r.below(7) as u8)];
+                        rq.message.add_option(CoapOption::Block1, b1.clone());
+                        if let Some(resp) = rq.response.as_mut() {
+                            resp.message.add_option(CoapOption::Block1, b1);
+                        }
+                    }
                     if premut == 7 {
                         // the application had accepted an observation before a later step failed
                         if let Some(resp) = rq.response.as_mut() {
